@@ -533,6 +533,84 @@ Proof.
   - vm_compute. split; reflexivity.
 Qed.
 
+(* Two solver objects that hold the same option values, the same arguments
+   and stand at the same position answer EVERY admissible later history
+   (option dictionaries, item assignments, start, step, run, with or without
+   args) identically - whatever each of them did before, whatever identity
+   their integrator objects have. *)
+Theorem C11_solver_equal_values_equal_answers :
+  forall X A skey sdflt supports dflt valid_m nkeys flow,
+    skey 0%nat = true ->
+    (forall m f g a t t' x, (forall k, supports m k = true -> f k = g k) ->
+                            flow m f a t t' x = flow m g a t t' x) ->
+    valid_m (sdflt 0%nat) = true ->
+  forall ops (s1 s2 : solv X A),
+    Forall (good_sop X A valid_m) ops ->
+    Equiv X A skey sdflt supports dflt s1 s2 ->
+    sanswers X A skey sdflt supports dflt valid_m nkeys flow s1 ops
+    = sanswers X A skey sdflt supports dflt valid_m nkeys flow s2 ops.
+Proof. exact sanswers_equiv. Qed.
+Print Assumptions C11_solver_equal_values_equal_answers.
+
+(* The C11 statement for solver objects: after ANY admissible history, the
+   object answers every later history exactly like a NEW solver constructed
+   with the option values and arguments now in force and started at the
+   position the object stands at. *)
+Theorem C11_solver_fresh_solver_equivalent :
+  forall X A skey sdflt supports dflt valid_m nkeys flow,
+    skey 0%nat = true ->
+    (forall m f g a t t' x, (forall k, supports m k = true -> f k = g k) ->
+                            flow m f a t t' x = flow m g a t t' x) ->
+    valid_m (sdflt 0%nat) = true ->
+  forall a0 d s0 hist df sf t x later,
+    init X A skey sdflt supports dflt valid_m nkeys a0 d = (s0, Ok) ->
+    Forall (good_sop X A valid_m) hist ->
+    let s := srun X A skey sdflt supports dflt valid_m nkeys flow s0 hist in
+    (* the new solver: built with the values in force, started where s stands *)
+    init X A skey sdflt supports dflt valid_m nkeys (v_args s) df = (sf, Ok) ->
+    (forall k, look skey sdflt dflt (v_o sf) k = look skey sdflt dflt (v_o s) k) ->
+    pos X A s = (true, t, Some x) ->
+    Forall (good_sop X A valid_m) later ->
+    sanswers X A skey sdflt supports dflt valid_m nkeys flow s later
+    = sanswers X A skey sdflt supports dflt valid_m nkeys flow
+               (start X A sf x t) later.
+Proof.
+  intros X A skey sdflt supports dflt valid_m nkeys flow H0 Hf Hv
+         a0 d s0 hist df sf t x later Hi Hh s Hif Hl Hp Hg.
+  apply (sanswers_equiv X A skey sdflt supports dflt valid_m nkeys flow H0 Hf Hv later); [exact Hg|].
+  assert (Cs : Coh X A skey sdflt supports dflt s).
+  { apply (srun_coh X A skey sdflt supports dflt valid_m nkeys flow H0 Hv hist s0 Hh).
+    exact (init_coh X A skey sdflt supports dflt valid_m nkeys a0 d s0 Hi). }
+  assert (Cf : Coh X A skey sdflt supports dflt (start X A sf x t)).
+  { apply (same_cfg_coh X A skey sdflt supports dflt sf); [apply i_set_cfg|].
+    exact (init_coh X A skey sdflt supports dflt valid_m nkeys (v_args s) df sf Hif). }
+  split; [exact Cs|]. split; [exact Cf|]. split; [intros k; symmetry; apply Hl|].
+  assert (Ha : v_args sf = v_args s).
+  { unfold init in Hif. destruct (negb (valid_m _)); [discriminate|].
+    destruct (existsb _ df); [discriminate|]. injection Hif as <-. reflexivity. }
+  split; [simpl; symmetry; exact Ha|]. rewrite Hp. reflexivity.
+Qed.
+Print Assumptions C11_solver_fresh_solver_equivalent.
+
+(* non-vacuity: a used object (method changed twice, item assignment,
+   arguments changed by run and by step) against a new one built with the final
+   dictionary and arguments and started at the same position: same answers *)
+Example C11_solver_fresh_nonvacuous :
+  let hist := [SStart 5 0; SStep 1 (Some 2); SOpts [(0%nat, Some 3); (4%nat, Some 7)];
+               SRun 7 0 [1; 2] (Some 3); SItem 7 (Some 1); SOpts [(0%nat, Some 1); (3%nat, Some 10)];
+               SStep 4 None] in
+  let later := [SStep 6 None; SOpts [(5%nat, Some 1000)]; SStep 7 (Some 1);
+                SRun 9 7 [8; 9] None; SStep 11 None] in
+  let s := srun Z Z x_skey x_sdflt x_supports x_dflt x_valid 8 x_flow
+                (fst (x_init 1 [(0%nat, Some 1)])) hist in
+  let sf := start Z Z (fst (x_init 3 [(0%nat, Some 1); (3%nat, Some 10)])) 
+                  (match g_x (v_int s) with Some x => x | None => 0 end) (g_t (v_int s)) in
+  v_args s = 3 /\ g_set (v_int s) = true /\
+  sanswers Z Z x_skey x_sdflt x_supports x_dflt x_valid 8 x_flow s later
+  = sanswers Z Z x_skey x_sdflt x_supports x_dflt x_valid 8 x_flow sf later /\
+  length (sanswers Z Z x_skey x_sdflt x_supports x_dflt x_valid 8 x_flow s later) = 5%nat.
+Proof. vm_compute. repeat split. Qed.
+
 (* ======================================================================
    Part 6 - the memo of Propagator as OBJECTS (Model/C11_alias.v): the
    integrator updates its working buffer in place, Solver.step hands out a
@@ -581,3 +659,49 @@ Example C11_propagator_memo_alias_witness :
   a_shared Z (a_run Z 0%Z false (a_init Z 0%Z)
                     [AStep (Z.add 1%Z) true; AStep (Z.add 1%Z) true]) = [true; true; false].
 Proof. vm_compute. repeat split. Qed.
+
+(* ======================================================================
+   Part 7 - IntegratorScipylsoda (scipy_integrator.py): mcstep / _one_step /
+   _backstep around SciPy's lsoda.  Model in Model/C11_lsoda.v; lsoda enters
+   by its contract (interpolation within one step behind tcur; never called
+   with its own time when freshly reset) and an oracle for (tcur, hu, hcur).
+   ====================================================================== *)
+From QV Require Import Model.C11_lsoda Proofs.C11_lsoda.
+
+(* The source as it is: _backstep restarts from the saved state and then
+   calls ode.integrate(t) even when t is the restart time: lsoda is left
+   unusable and the next mcstep raises "illegal input".  Window [0, 8] after
+   one step, lsoda's next step 2, back-step to the window's start, then a
+   forward request. *)
+Theorem C11_lsoda_backstep_at_back_refuted :
+  exists ops, probes_ok l_new ops /\
+    l_poison (l_final false l_new ops) = true /\
+    exists t fd p o, fst (l_mcstep false (l_final false l_new ops) t fd p o o) = (l_final false l_new ops, true).
+Proof.
+  exists [LSet 0; LMc 10 0 1 (8, 8, 2) (8, 8, 2); LMc 0 6 0 (0, 0, 0) (0, 0, 0)].
+  split; [simpl; repeat split; intros; lia|]. split; [reflexivity|].
+  exists 10, 0, 1, (9, 9, 9). reflexivity.
+Qed.
+Print Assumptions C11_lsoda_backstep_at_back_refuted.
+
+(* With the repair (no integrate call when the restart already stands at the
+   requested time): after EVERY history of set_state / mcstep calls, with any
+   oracle values, lsoda is never called with its own time when freshly reset
+   (it is never left unusable), and a freshly reset integrator stands at the
+   front of the window. *)
+Theorem C11_lsoda_repaired_never_poisoned :
+  forall ops, probes_ok l_new ops ->
+    let s := l_final true l_new ops in
+    l_poison s = false /\ (l_fresh s = true -> l_t s = l_front s).
+Proof. intros ops H. exact (l_final_inv ops l_new l_new_inv H). Qed.
+Print Assumptions C11_lsoda_repaired_never_poisoned.
+
+Example C11_lsoda_nonvacuous :
+  let ops := [LSet 0; LMc 10 0 1 (8, 8, 2) (8, 8, 2); LMc 0 6 0 (0, 0, 0) (0, 0, 0);
+              LMc 10 0 1 (5, 5, 5) (5, 5, 5); LMc 3 0 0 (0, 0, 0) (0, 0, 0)] in
+  probes_ok l_new ops /\
+  l_trace true l_new ops
+  = [(false, (true, 0, 0, 0)); (false, (true, 0, 8, 8)); (false, (true, 0, 0, 0));
+     (false, (true, 0, 5, 5)); (false, (true, 0, 5, 3))] /\
+  map fst (l_trace false l_new ops) = [false; false; false; true; true].
+Proof. split; [simpl; repeat split; intros; lia|]. vm_compute. split; reflexivity. Qed.
